@@ -1,5 +1,6 @@
 import JominiModel.Proofs.BinReader
 import JominiModel.Proofs.TextFault
+import JominiModel.Proofs.TextDeCut
 /-
 C20 — Underlying I/O failures surface as errors, never as silently wrong results.
 
